@@ -27,6 +27,8 @@ def contract(expression: Expression) -> Expression:
         and not expression.numerator.parents
         and not expression.denominator.parents
         and set(expression.denominator.children).issubset(expression.numerator.children)
+        # the denominator must be the same kind of probability (class, population) as the numerator
+        and expression.numerator._new(expression.denominator.distribution) == expression.denominator
     ):
         return expression
     children = set(expression.numerator.children).difference(expression.denominator.children)
